@@ -298,7 +298,10 @@ class TlSchemas:
                             raise TlError(f'vector length {length} exceeds the remaining {max(len(data) - i, 0)} bytes')
                         result[field] = []
                         for _ in range(length):
-                            if sch:
+                            if subtype in self.base_types:
+                                deser, j = self.deserialize(data[i:], False, {'_': subtype})
+                                deser = deser['_']
+                            elif sch:
                                 deser, j = self.deserialize(data[i:], False, sch.args)
                             else:
                                 deser, j = self.deserialize(data[i:], True)
